@@ -1,19 +1,37 @@
-(** C10 - the database parts of the mutating operations of waddrmgr
-    (scoped_manager.go, manager.go, sync.go, db.go) as programs of the fault
-    language.  Keys are abstract; the ORDER and NUMBER of mutating calls per
-    branch follow the Go code.  Definitions only.
+(** C10 - the mutating operations of waddrmgr (scoped_manager.go, manager.go,
+    sync.go, db.go) as programs of the fault language, with the in-memory part
+    of the managers.
+
+    Disk.  Keys are abstract; the ORDER and NUMBER of mutating calls per branch
+    follow the Go code; one Coq definition per Go function, one [call] per call
+    site whose error may stem from a write, named as Generated/ErrFlow.v names
+    it ("waddrmgr:<function>><callee>").
+
+    Memory.  [mem] records what the running managers hold IN ADDITION to what
+    the store says (the store is what a freshly opened manager answers from):
+    the lock / watch-only flags and the effects of the calls made so far.  Every
+    operation has a memory effect and a SHAPE that says when the Go code
+    applies it (after its own writes, at commit, before its writes); the shape
+    of every operation is regenerated from the source (Generated/ErrFlow.v,
+    [mem_shapes]) and required by Properties/C10.v.
 
     An address is named by its path [sc; account; branch; index] (imported
-    keys and scripts: [sc; -1; kind; k]); account -1 is ImportedAddrAccount. *)
+    keys and scripts: [sc; -1; kind; k] with kind 0 private key, 1 script,
+    2 public key, 3 witness script, 4 taproot script); account -1 is
+    ImportedAddrAccount.  Definitions only. *)
 From stdpp Require Import gmap.
-From Coq Require Import ZArith List.
+From Coq Require Import ZArith List String.
 From Verif Require Import Fault.Fault.
 Import ListNotations.
+Local Open Scope string_scope.
 Local Open Scope Z_scope.
+Local Open Scope list_scope.
 
 (** global buckets *)
-Definition gMain := 10.      (* crypto keys, master key params *)
-Definition gSync := 11.      (* [h] -> hash; special keys below *)
+Definition gNS := 9.         (* the namespace bucket itself *)
+Definition gMain := 10.      (* crypto keys, master key params, flags *)
+Definition gSync := 11.      (* [h] -> [hash]; special keys below *)
+Definition gScope := 12.     (* parent of the per-scope buckets *)
 Definition gSchemas := 13.   (* [sc] -> schema *)
 Definition kSyncedTo : key := [-1].
 Definition kStartBlock : key := [-2].
@@ -25,12 +43,18 @@ Definition kMasterPub : key := [2].
 Definition kCryptoPriv : key := [3].
 Definition kCryptoScript : key := [4].
 Definition kCryptoPub : key := [5].
+Definition kWatchOnly : key := [6].
+Definition kMasterHDPriv : key := [7].
+Definition kMasterHDPub : key := [8].
+Definition kVersion : key := [9].
+Definition kCreateDate : key := [10].
 
 (** buckets of scope [sc] *)
 Definition sb (sc off : Z) : Z := 100 + 16 * sc + off.
-Definition oScope := 0.      (* the scope bucket itself: cointype keys *)
-Definition oAcct := 1.       (* [a] -> [next ext; next int; name] *)
-Definition oAddr := 2.       (* path -> row *)
+Definition oScope := 0.      (* the scope bucket itself: cointype keys [1] public, [2] private *)
+Definition oAcct := 1.       (* [a] -> [next ext; next int; name; kind]
+                                kind 0 default account with private key, 1 without, 2 watch-only row *)
+Definition oAddr := 2.       (* path -> [account; secret] (secret: the row holds a private key / secret script) *)
 Definition oUsed := 3.
 Definition oAddrAcctIdx := 4.
 Definition oNameIdx := 5.    (* [name] -> [a] *)
@@ -38,6 +62,8 @@ Definition oIDIdx := 6.      (* [a] -> [name] *)
 Definition oMeta := 7.       (* [0] -> [last account] *)
 (** the per-account bucket nested in the address-account index *)
 Definition acct_sub (sc a : Z) : Z := 1000000 * (sc + 1) + a + 1.
+Definition all_scopes : list Z := [0; 1; 2; 3; 4; 5].
+Definition default_scopes : list Z := [0; 1; 2; 3].
 
 Definition eLocked := 20.
 Definition eDuplicateAccount := 21.
@@ -48,139 +74,148 @@ Definition eDuplicateAddress := 25.
 Definition eBlockNotFound := 26.
 Definition eWrongPassphrase := 27.
 Definition eScopeNotFound := 28.
+Definition eWatchingOnly := 29.
+Definition eMgrAlreadyExists := 30.
 
 Definition name_imported := 1.
 Definition name_default := 2.
 Definition max_reorg_depth := 10000.
 
-(** db.go putAccountInfo: account row, id index, name index *)
-Definition put_account_info (sc a : Z) (next_ext next_int name : Z) : prog unit :=
-  put (sb sc oAcct) [a] [next_ext; next_int; name] ;;;
-  put (sb sc oIDIdx) [a] [name] ;;;
-  put (sb sc oNameIdx) [name] [a].
+(** ** Memory *)
+Record mem := {
+  m_locked : bool;
+  m_watch : bool;
+  m_keys : bool;                    (* the (encrypted) private crypto keys and their key objects are in memory *)
+  m_synced : option (Z * Z);        (* SyncedTo() answers this instead of the stored value *)
+  m_start : option Z;
+  m_birthday : option Z;
+  m_scopes : list Z;                (* scoped managers registered beyond the stored ones *)
+  m_names : list (Z * Z * Z);       (* cached account names that differ from the store: (sc, a, name) *)
+  m_next : list (Z * Z * Z * Z);    (* cached next indices: (sc, a, branch, next) *)
+  m_addrs : list key;               (* addresses put into the address cache by operations *)
+  m_priv : option Z;                (* private / public passphrase the running manager checks against *)
+  m_pub : option Z
+}.
 
-(** manager.go NewScopedKeyManager (unlocked, not watch-only):
-    createScopedManagerNS (8 CreateBucket), schema, then createManagerKeyScope:
-    cointype keys, the two default accounts, and the last-account row (account
-    0) of the new scope - 18 mutating calls. *)
-Definition new_scope (sc : Z) : prog unit :=
-  create_bucket (sb sc oScope) ;;;
-  for_each [oAcct; oAddr; oUsed; oAddrAcctIdx; oNameIdx; oIDIdx; oMeta]
-           (fun off => create_bucket (sb sc off)) ;;;
-  put gSchemas [sc] [sc] ;;;
-  put (sb sc oScope) [1] [1] ;;;
-  put (sb sc oScope) [2] [2] ;;;
-  put_account_info sc 0 0 0 name_default ;;;
-  put_account_info sc (-1) 0 0 name_imported ;;;
-  put (sb sc oMeta) [0] [0].
+Definition mem0 (locked : bool) : mem :=
+  {| m_locked := locked; m_watch := false; m_keys := true; m_synced := None; m_start := None;
+     m_birthday := None; m_scopes := []; m_names := []; m_next := []; m_addrs := [];
+     m_priv := None; m_pub := None |}.
 
-Definition scope_exists (sc : Z) : prog bool := has_bucket (sb sc oScope).
+(** observable categories (the harness's names) *)
+Definition cSyncedTo := 1.
+Definition cBirthday := 2.
+Definition cScopes := 3.
+Definition cAccountName := 4.
+Definition cNextIndex := 5.
+Definition cAddressLookup := 6.
+Definition cPassphrase := 7.
+Definition cWatchOnly := 8.
+Definition cLocked := 9.
+Definition cKeyMaterial := 10.
+Definition cOther := 11.        (* start block, public passphrase: kept in memory, not asked by any query *)
 
-(** scoped_manager.go NewAccount.  fetchLastAccount answers 2^32-1 when the
-    key is missing and the increment wraps around. *)
-Definition new_account (sc name : Z) : prog Z :=
-  ex <- scope_exists sc ;;
-  (if negb ex then Fail eScopeNotFound else
-   lastv <- get (sb sc oMeta) [0] ;;
-   let last := match lastv with Some [l] => l | _ => 4294967295 end in
-   let a := (last + 1) mod 4294967296 in
-   dup <- get (sb sc oNameIdx) [name] ;;
-   (match dup with
-    | Some _ => Fail eDuplicateAccount
-    | None =>
-      put_account_info sc a 0 0 name ;;;
-      put (sb sc oMeta) [0] [a] ;;;
-      Ret a
-    end)).
+Definition oeqb {X} (eqb : X -> X -> bool) (a b : option X) : bool :=
+  match a, b with
+  | Some x, Some y => eqb x y
+  | None, None => true
+  | _, _ => false
+  end.
+Definition pair_eqb (a b : Z * Z) : bool := (fst a =? fst b) && (snd a =? snd b).
 
-(** scoped_manager.go RenameAccount *)
-Definition rename_account (sc a name : Z) : prog unit :=
-  if a =? -1 then Fail eInvalidAccount else
-  dup <- get (sb sc oNameIdx) [name] ;;
-  (match dup with
-   | Some _ => Fail eDuplicateAccount
-   | None =>
-     row <- get (sb sc oAcct) [a] ;;
-     (match row with
-      | Some [ne; ni; old] =>
-        del (sb sc oIDIdx) [a] ;;;
-        del (sb sc oNameIdx) [old] ;;;
-        put_account_info sc a ne ni name
-      | _ => Fail eAccountNotFound
-      end)
-   end).
+(** which categories of queries can answer differently under [m'] than under [m] *)
+Definition mem_cats (m m' : mem) : list Z :=
+  (if oeqb pair_eqb (m_synced m) (m_synced m') then [] else [cSyncedTo]) ++
+  (if oeqb Z.eqb (m_birthday m) (m_birthday m') then [] else [cBirthday]) ++
+  (if Nat.eqb (List.length (m_scopes m)) (List.length (m_scopes m')) then [] else [cScopes]) ++
+  (if Nat.eqb (List.length (m_names m)) (List.length (m_names m')) then [] else [cAccountName]) ++
+  (if Nat.eqb (List.length (m_next m)) (List.length (m_next m')) then [] else [cNextIndex]) ++
+  (if Nat.eqb (List.length (m_addrs m)) (List.length (m_addrs m')) then [] else [cAddressLookup]) ++
+  (if oeqb Z.eqb (m_priv m) (m_priv m') then [] else [cPassphrase]) ++
+  (if Bool.eqb (m_watch m) (m_watch m') then [] else [cWatchOnly]) ++
+  (if Bool.eqb (m_locked m) (m_locked m') then [] else [cLocked]) ++
+  (if Bool.eqb (m_keys m) (m_keys m') then [] else [cKeyMaterial]) ++
+  (if oeqb Z.eqb (m_start m) (m_start m') && oeqb Z.eqb (m_pub m) (m_pub m') then [] else [cOther]).
 
-(** db.go putAddress: address row, then putAddrAccountIndex (index entry,
-    CreateBucketIfNotExists of the account's bucket, entry in it) *)
-Definition put_address (sc a : Z) (path : key) : prog unit :=
-  put (sb sc oAddr) path [a] ;;;
-  put (sb sc oAddrAcctIdx) path [a] ;;;
-  create_bucket_if_not_exists (acct_sub sc a) ;;;
-  put (acct_sub sc a) path [].
+(** ** db.go *)
 
-(** db.go putChainedAddress: putAddress, then the account row with the next
-    index of the branch *)
+Definition put_account_row (sc a : Z) (row : val) : prog unit :=
+  call "waddrmgr:putAccountRow>db.Put" (put (sb sc oAcct) [a] row).
+Definition put_account_id_index (sc a name : Z) : prog unit :=
+  call "waddrmgr:putAccountIDIndex>db.Put" (put (sb sc oIDIdx) [a] [name]).
+Definition put_account_name_index (sc a name : Z) : prog unit :=
+  call "waddrmgr:putAccountNameIndex>db.Put" (put (sb sc oNameIdx) [name] [a]).
+Definition delete_account_id_index (sc a : Z) : prog unit :=
+  call "waddrmgr:deleteAccountIDIndex>db.Delete" (del (sb sc oIDIdx) [a]).
+Definition delete_account_name_index (sc name : Z) : prog unit :=
+  call "waddrmgr:deleteAccountNameIndex>db.Delete" (del (sb sc oNameIdx) [name]).
+
+(** putAccountInfo: account row, id index, name index *)
+Definition put_account_info (sc a : Z) (row : val) (name : Z) : prog unit :=
+  call "waddrmgr:putAccountInfo>putAccountRow" (put_account_row sc a row) ;;;
+  call "waddrmgr:putAccountInfo>putAccountIDIndex" (put_account_id_index sc a name) ;;;
+  call "waddrmgr:putAccountInfo>putAccountNameIndex" (put_account_name_index sc a name).
+Definition put_default_account_info (sc a ne ni name kind : Z) : prog unit :=
+  call "waddrmgr:putDefaultAccountInfo>putAccountInfo" (put_account_info sc a [ne; ni; name; kind] name).
+Definition put_watchonly_account_info (sc a ne ni name : Z) : prog unit :=
+  call "waddrmgr:putWatchOnlyAccountInfo>putAccountInfo" (put_account_info sc a [ne; ni; name; 2] name).
+Definition put_last_account (sc a : Z) : prog unit :=
+  call "waddrmgr:putLastAccount>db.Put" (put (sb sc oMeta) [0] [a]).
+
+(** putAddrAccountIndex: index entry, CreateBucketIfNotExists of the account's
+    bucket, entry in it *)
+Definition put_addr_account_index (sc a : Z) (path : key) : prog unit :=
+  call "waddrmgr:putAddrAccountIndex>db.Put" (put (sb sc oAddrAcctIdx) path [a]) ;;;
+  call "waddrmgr:putAddrAccountIndex>db.CreateBucketIfNotExists" (create_bucket_if_not_exists (acct_sub sc a)) ;;;
+  call "waddrmgr:putAddrAccountIndex>db.Put" (put (acct_sub sc a) path []).
+(** putAddress: address row, then the index *)
+Definition put_address (sc a : Z) (path : key) (secret : Z) : prog unit :=
+  call "waddrmgr:putAddress>db.Put" (put (sb sc oAddr) path [a; secret]) ;;;
+  call "waddrmgr:putAddress>putAddrAccountIndex" (put_addr_account_index sc a path).
+(** putChainedAddress: putAddress, then the account row with the next index of
+    the branch *)
 Definition put_chained_address (sc a branch idx : Z) : prog unit :=
-  put_address sc a [sc; a; branch; idx] ;;;
+  call "waddrmgr:putChainedAddress>putAddress" (put_address sc a [sc; a; branch; idx] 0) ;;;
   row <- get (sb sc oAcct) [a] ;;
   (match row with
-   | Some [ne; ni; nm] =>
-     put (sb sc oAcct) [a] (if branch =? 1 then [ne; idx + 1; nm] else [idx + 1; ni; nm])
+   | Some [ne; ni; nm; kd] =>
+     call "waddrmgr:putChainedAddress>db.Put"
+          (put (sb sc oAcct) [a] (if branch =? 1 then [ne; idx + 1; nm; kd] else [idx + 1; ni; nm; kd]))
    | _ => Fail eAccountNotFound
    end).
+Definition put_imported_address (sc : Z) (path : key) (secret : Z) : prog unit :=
+  call "waddrmgr:putImportedAddress>putAddress" (put_address sc (-1) path secret).
+Definition put_script_address (sc : Z) (path : key) (secret : Z) : prog unit :=
+  call "waddrmgr:putScriptAddress>putAddress" (put_address sc (-1) path secret).
+Definition put_witness_script_address (sc : Z) (path : key) (secret : Z) : prog unit :=
+  call "waddrmgr:putWitnessScriptAddress>putAddress" (put_address sc (-1) path secret).
 
-Definition next_index (sc a branch : Z) : prog (option Z) :=
-  row <- get (sb sc oAcct) [a] ;;
-  Ret (match row with
-       | Some [ne; ni; _] => Some (if branch =? 1 then ni else ne)
-       | _ => None
-       end).
-
-(** scoped_manager.go nextAddresses (n >= 1): n times putChainedAddress; the
-    read-back between them makes no write *)
-Definition next_addresses (sc a branch : Z) (n : nat) : prog unit :=
-  nx <- next_index sc a branch ;;
-  (match nx with
-   | None => Fail eAccountNotFound
-   | Some i0 => for_each (seqZ_from i0 n) (fun i => put_chained_address sc a branch i)
-   end).
-
-(** scoped_manager.go extendAddresses: nothing when lastIndex < next index *)
-Definition extend_addresses (sc a branch last : Z) : prog unit :=
-  nx <- next_index sc a branch ;;
-  (match nx with
-   | None => Fail eAccountNotFound
-   | Some i0 =>
-     if last <? i0 then Ret tt
-     else for_each (seqZ_from i0 (Z.to_nat (last - i0 + 1))) (fun i => put_chained_address sc a branch i)
-   end).
-
-(** manager.go MarkUsed -> db.go markAddressUsed: no write when already used *)
-Definition mark_used (path : key) : prog unit :=
+(** markAddressUsed: no write when already used *)
+Definition mark_address_used (path : key) : prog unit :=
   let sc := hd 0 path in
-  ex <- get (sb sc oAddr) path ;;
-  (match ex with
-   | None => Fail eAddressNotFound
-   | Some _ =>
-     u <- get (sb sc oUsed) path ;;
-     (match u with Some _ => Ret tt | None => put (sb sc oUsed) path [0] end)
+  u <- get (sb sc oUsed) path ;;
+  (match u with
+   | Some _ => Ret tt
+   | None => call "waddrmgr:markAddressUsed>db.Put" (put (sb sc oUsed) path [0])
    end).
 
-(** ImportPrivateKey / ImportScript: duplicate check, putAddress under the
-    imported account, start block when the stamp is older *)
-Definition import_address (sc kind k h : Z) : prog unit :=
-  let path := [sc; -1; kind; k] in
-  ex <- get (sb sc oAddr) path ;;
-  (match ex with
-   | Some _ => Fail eDuplicateAddress
-   | None =>
-     start <- get gSync kStartBlock ;;
-     put_address sc (-1) path ;;;
-     (if h <? hd 0 (default [] start) then put gSync kStartBlock [h] else Ret tt)
-   end).
+Definition put_start_block (h : Z) : prog unit :=
+  call "waddrmgr:putStartBlock>db.Put" (put gSync kStartBlock [h]).
+Definition put_birthday (t : Z) : prog unit :=
+  call "waddrmgr:putBirthday>db.Put" (put gSync kBirthday [t]).
+Definition put_birthday_block (h hash : Z) : prog unit :=
+  call "waddrmgr:PutBirthdayBlock>db.Put" (put gSync kBirthdayBlock [h; hash]).
+Definition put_birthday_block_verification (v : bool) : prog unit :=
+  call "waddrmgr:putBirthdayBlockVerification>db.Put" (put gSync kBirthdayVerified [b2z v]).
 
-(** sync.go SetSyncedTo -> db.go PutSyncedTo *)
-Definition set_synced_to (h hash : Z) : prog unit :=
+(** PutSyncedTo *)
+Definition add_block_hash (h hash : Z) : prog unit :=
+  call "waddrmgr:addBlockHash>db.Put" (put gSync [h] [hash]).
+Definition delete_block_hash (h : Z) : prog unit :=
+  call "waddrmgr:deleteBlockHash>db.Delete" (del gSync [h]).
+Definition update_synced_to (h hash : Z) : prog unit :=
+  call "waddrmgr:updateSyncedTo>db.Put" (put gSync kSyncedTo [h; hash]).
+Definition put_synced_to (h hash : Z) : prog unit :=
   ok <- (if 0 <? h then
            bb <- get gSync kBirthdayBlock ;;
            (match bb with
@@ -189,90 +224,608 @@ Definition set_synced_to (h hash : Z) : prog unit :=
             end)
          else Ret true) ;;
   (if negb ok then Fail eBlockNotFound else
-   put gSync [h] [hash] ;;;
-   (if 0 <? h - max_reorg_depth then del gSync [h - max_reorg_depth] else Ret tt) ;;;
-   put gSync kSyncedTo [h; hash]).
+   call "waddrmgr:PutSyncedTo>addBlockHash" (add_block_hash h hash) ;;;
+   (if 0 <? h - max_reorg_depth
+    then call "waddrmgr:PutSyncedTo>deleteBlockHash" (delete_block_hash (h - max_reorg_depth))
+    else Ret tt) ;;;
+   call "waddrmgr:PutSyncedTo>updateSyncedTo" (update_synced_to h hash)).
 
-(** sync.go SetBirthdayBlock / SetBirthday *)
-Definition set_birthday_block (h hash : Z) (verified : bool) : prog unit :=
-  put gSync kBirthdayBlock [h; hash] ;;;
-  put gSync kBirthdayVerified [b2z verified].
-Definition set_birthday (t : Z) : prog unit := put gSync kBirthday [t].
+Definition opt_put (st : site) (b : Z) (k : key) (v : option Z) : prog unit :=
+  match v with Some x => call st (put b k [x]) | None => Ret tt end.
+(** putMasterKeyParams: private first; putCryptoKeys: public, private, script;
+    putMasterHDKeys: private, public; putCoinTypeKeys: public, private *)
+Definition put_master_key_params (pub priv : option Z) : prog unit :=
+  opt_put "waddrmgr:putMasterKeyParams>db.Put" gMain kMasterPriv priv ;;;
+  opt_put "waddrmgr:putMasterKeyParams>db.Put" gMain kMasterPub pub.
+Definition put_crypto_keys (pub priv script : option Z) : prog unit :=
+  opt_put "waddrmgr:putCryptoKeys>db.Put" gMain kCryptoPub pub ;;;
+  opt_put "waddrmgr:putCryptoKeys>db.Put" gMain kCryptoPriv priv ;;;
+  opt_put "waddrmgr:putCryptoKeys>db.Put" gMain kCryptoScript script.
+Definition put_master_hd_keys : prog unit :=
+  call "waddrmgr:putMasterHDKeys>db.Put" (put gMain kMasterHDPriv []) ;;;
+  call "waddrmgr:putMasterHDKeys>db.Put" (put gMain kMasterHDPub []).
+Definition put_coin_type_keys (sc : Z) : prog unit :=
+  call "waddrmgr:putCoinTypeKeys>db.Put" (put (sb sc oScope) [1] []) ;;;
+  call "waddrmgr:putCoinTypeKeys>db.Put" (put (sb sc oScope) [2] []).
+Definition put_watching_only (w : bool) : prog unit :=
+  call "waddrmgr:putWatchingOnly>db.Put" (put gMain kWatchOnly [b2z w]).
+Definition put_manager_version : prog unit :=
+  call "waddrmgr:putManagerVersion>db.Put" (put gMain kVersion []).
 
-(** manager.go ChangePassphrase *)
-Definition change_passphrase (private : bool) (old new : Z) : prog unit :=
-  cur <- get gMain (if private then kMasterPriv else kMasterPub) ;;
-  (if negb (hd 0 (default [] cur) =? old) then Fail eWrongPassphrase else
-   if private then
-     put gMain kCryptoPriv [new] ;;;
-     put gMain kCryptoScript [new] ;;;
-     put gMain kMasterPriv [new]
+(** createScopedManagerNS: the scope bucket and its seven sub-buckets *)
+Definition create_scoped_manager_ns (sc : Z) : prog unit :=
+  for_each [oScope; oAcct; oAddr; oUsed; oAddrAcctIdx; oNameIdx; oIDIdx; oMeta]
+           (fun off => call "waddrmgr:createScopedManagerNS>db.CreateBucket" (create_bucket (sb sc off))).
+
+(** createManagerKeyScope: cointype keys, the two default accounts, the
+    last-account row *)
+Definition create_manager_key_scope (sc : Z) : prog unit :=
+  call "waddrmgr:createManagerKeyScope>putCoinTypeKeys" (put_coin_type_keys sc) ;;;
+  call "waddrmgr:createManagerKeyScope>putDefaultAccountInfo" (put_default_account_info sc 0 0 0 name_default 0) ;;;
+  call "waddrmgr:createManagerKeyScope>putDefaultAccountInfo" (put_default_account_info sc (-1) 0 0 name_imported 1) ;;;
+  call "waddrmgr:createManagerKeyScope>putLastAccount" (put_last_account sc 0).
+
+(** createManagerNS (the Go code walks a map: the scopes come in any order;
+    they touch different buckets) *)
+Definition create_manager_ns (scs : list Z) : prog unit :=
+  for_each [gMain; gSync; gScope; gSchemas]
+           (fun b => call "waddrmgr:createManagerNS>db.CreateBucket" (create_bucket b)) ;;;
+  for_each scs (fun sc =>
+    call "waddrmgr:createManagerNS>db.Put" (put gSchemas [sc] []) ;;;
+    call "waddrmgr:createManagerNS>createScopedManagerNS" (create_scoped_manager_ns sc) ;;;
+    call "waddrmgr:createManagerNS>putLastAccount" (put_last_account sc 0)) ;;;
+  call "waddrmgr:createManagerNS>putManagerVersion" put_manager_version ;;;
+  call "waddrmgr:createManagerNS>db.Put" (put gMain kCreateDate []).
+
+(** deletePrivateKeys *)
+Definition strip_account (sc : Z) (e : key * val) : prog unit :=
+  match snd e with
+  | [ne; ni; nm; kd] =>
+    if kd =? 2 then Ret tt
+    else call "waddrmgr:deletePrivateKeys$1$1>db.Put" (put (sb sc oAcct) (fst e) [ne; ni; nm; 1])
+  | _ => Ret tt
+  end.
+Definition strip_address (sc : Z) (e : key * val) : prog unit :=
+  match fst e, snd e with
+  | [_; (-1); kind; _], [a; secret] =>
+    if (kind =? 0) || (kind =? 1) || (kind =? 2) || (((kind =? 3) || (kind =? 4)) && (secret =? 1))
+    then call "waddrmgr:deletePrivateKeys$1$2>db.Put" (put (sb sc oAddr) (fst e) [a; 0])
+    else Ret tt          (* public witness / taproot scripts stay as they are *)
+  | _, _ => Ret tt
+  end.
+Definition strip_scope (sc : Z) : prog unit :=
+  call "waddrmgr:deletePrivateKeys$1>db.Delete" (del (sb sc oScope) [2]) ;;;
+  accts <- scan (sb sc oAcct) ;;
+  call "waddrmgr:deletePrivateKeys$1>bucket.ForEach(callback)" (for_each accts (strip_account sc)) ;;;
+  addrs <- scan (sb sc oAddr) ;;
+  call "waddrmgr:deletePrivateKeys$1>bucket.ForEach(callback)" (for_each addrs (strip_address sc)).
+Definition delete_private_keys : prog unit :=
+  for_each [kMasterPriv; kCryptoPriv; kCryptoScript; kMasterHDPriv]
+           (fun k => call "waddrmgr:deletePrivateKeys>db.Delete" (del gMain k)) ;;;
+  scs <- Read (fun s => filter (fun sc => isSome (s !! sb sc oScope)) all_scopes) ;;
+  call "waddrmgr:deletePrivateKeys>scopeBucket.ForEach(callback)" (for_each scs strip_scope).
+
+(** ** manager.go / scoped_manager.go / sync.go *)
+
+Definition scope_exists (sc : Z) : prog bool := has_bucket (sb sc oScope).
+Definition fetch_last_account (sc : Z) : prog Z :=
+  lastv <- get (sb sc oMeta) [0] ;;
+  Ret (match lastv with Some [l] => (l + 1) mod 4294967296 | _ => 0 end).
+
+(** NewScopedKeyManager *)
+Definition new_scope (m : mem) (sc : Z) : prog unit :=
+  if negb (m_watch m) && m_locked m then Fail eLocked else
+  hd_priv <- get gMain kMasterHDPriv ;;
+  (if negb (m_watch m) && negb (isSome hd_priv) then Fail eWatchingOnly else
+   call "waddrmgr:(*Manager).NewScopedKeyManager>createScopedManagerNS" (create_scoped_manager_ns sc) ;;;
+   call "waddrmgr:(*Manager).NewScopedKeyManager>db.Put" (put gSchemas [sc] []) ;;;
+   (if m_watch m then Ret tt
+    else call "waddrmgr:(*Manager).NewScopedKeyManager>createManagerKeyScope" (create_manager_key_scope sc))).
+
+(** newAccount / NewAccount.  fetchLastAccount answers 2^32-1 when the key is
+    missing and the increment wraps around. *)
+Definition new_account_inner (sc a name : Z) : prog unit :=
+  dup <- get (sb sc oNameIdx) [name] ;;
+  (match dup with
+   | Some _ => Fail eDuplicateAccount
+   | None =>
+     call "waddrmgr:(*ScopedKeyManager).newAccount>putDefaultAccountInfo" (put_default_account_info sc a 0 0 name 0) ;;;
+     call "waddrmgr:(*ScopedKeyManager).newAccount>putLastAccount" (put_last_account sc a)
+   end).
+Definition new_account (m : mem) (sc name : Z) : prog unit :=
+  ex <- scope_exists sc ;;
+  (if negb ex then Fail eScopeNotFound else
+   if m_watch m then Fail eWatchingOnly else
+   if m_locked m then Fail eLocked else
+   a <- fetch_last_account sc ;;
+   call "waddrmgr:(*ScopedKeyManager).NewAccount>(*ScopedKeyManager).newAccount" (new_account_inner sc a name)).
+
+(** newAccountWatchingOnly / NewAccountWatchingOnly (no lock check) *)
+Definition new_account_wo_inner (sc a name : Z) : prog unit :=
+  dup <- get (sb sc oNameIdx) [name] ;;
+  (match dup with
+   | Some _ => Fail eDuplicateAccount
+   | None =>
+     call "waddrmgr:(*ScopedKeyManager).newAccountWatchingOnly>putWatchOnlyAccountInfo"
+          (put_watchonly_account_info sc a 0 0 name) ;;;
+     call "waddrmgr:(*ScopedKeyManager).newAccountWatchingOnly>putLastAccount" (put_last_account sc a)
+   end).
+Definition new_account_wo (sc name : Z) : prog unit :=
+  ex <- scope_exists sc ;;
+  (if negb ex then Fail eScopeNotFound else
+   a <- fetch_last_account sc ;;
+   call "waddrmgr:(*ScopedKeyManager).NewAccountWatchingOnly>(*ScopedKeyManager).newAccountWatchingOnly"
+        (new_account_wo_inner sc a name)).
+
+(** NewRawAccountWatchingOnly: the account number is given, the name is
+    "act:<number>" (name id 1000 + number) *)
+Definition new_raw_account_wo (sc a : Z) : prog unit :=
+  ex <- scope_exists sc ;;
+  (if negb ex then Fail eScopeNotFound else
+   call "waddrmgr:(*ScopedKeyManager).NewRawAccountWatchingOnly>(*ScopedKeyManager).newAccountWatchingOnly"
+        (new_account_wo_inner sc a (1000 + a))).
+
+(** RenameAccount *)
+Definition rename_account (sc a name : Z) : prog unit :=
+  if a =? -1 then Fail eInvalidAccount else
+  dup <- get (sb sc oNameIdx) [name] ;;
+  (match dup with
+   | Some _ => Fail eDuplicateAccount
+   | None =>
+     row <- get (sb sc oAcct) [a] ;;
+     (match row with
+      | Some [ne; ni; old; kd] =>
+        call "waddrmgr:(*ScopedKeyManager).RenameAccount>deleteAccountIDIndex" (delete_account_id_index sc a) ;;;
+        call "waddrmgr:(*ScopedKeyManager).RenameAccount>deleteAccountNameIndex" (delete_account_name_index sc old) ;;;
+        (if kd =? 2
+         then call "waddrmgr:(*ScopedKeyManager).RenameAccount>putWatchOnlyAccountInfo"
+                   (put_watchonly_account_info sc a ne ni name)
+         else call "waddrmgr:(*ScopedKeyManager).RenameAccount>putDefaultAccountInfo"
+                   (put_default_account_info sc a ne ni name kd))
+      | _ => Fail eAccountNotFound
+      end)
+   end).
+
+Definition next_index (sc a branch : Z) : prog (option Z) :=
+  row <- get (sb sc oAcct) [a] ;;
+  Ret (match row with
+       | Some [ne; ni; _; _] => Some (if branch =? 1 then ni else ne)
+       | _ => None
+       end).
+
+(** nextAddresses (n >= 1): n times putChainedAddress; the read-back between
+    them makes no write.  Result: the paths written. *)
+Definition next_addresses_inner (sc a branch : Z) (n : nat) : prog (list key) :=
+  nx <- next_index sc a branch ;;
+  (match nx with
+   | None => Fail eAccountNotFound
+   | Some i0 =>
+     for_each (seqZ_from i0 n) (fun i =>
+       call "waddrmgr:(*ScopedKeyManager).nextAddresses>putChainedAddress" (put_chained_address sc a branch i)) ;;;
+     Ret (map (fun i => [sc; a; branch; i]) (seqZ_from i0 n))
+   end).
+Definition next_addresses (sc a branch : Z) (n : nat) : prog (list key) :=
+  ex <- scope_exists sc ;;
+  (if negb ex then Fail eScopeNotFound else
+   if branch =? 1
+   then Call "waddrmgr:(*ScopedKeyManager).NextInternalAddresses>(*ScopedKeyManager).nextAddresses"
+             (next_addresses_inner sc a branch n) []
+   else Call "waddrmgr:(*ScopedKeyManager).NextExternalAddresses>(*ScopedKeyManager).nextAddresses"
+             (next_addresses_inner sc a branch n) []).
+
+(** extendAddresses: nothing when lastIndex < next index.  Result: the paths
+    written. *)
+Definition extend_range (sc a branch last : Z) : prog (option (list Z)) :=
+  nx <- next_index sc a branch ;;
+  Ret (match nx with
+       | None => None
+       | Some i0 => Some (if last <? i0 then [] else seqZ_from i0 (Z.to_nat (last - i0 + 1)))
+       end).
+Definition extend_addresses_inner (sc a branch last : Z) : prog (list key) :=
+  r <- extend_range sc a branch last ;;
+  (match r with
+   | None => Fail eAccountNotFound
+   | Some l =>
+     for_each l (fun i =>
+       call "waddrmgr:(*ScopedKeyManager).extendAddresses>putChainedAddress" (put_chained_address sc a branch i)) ;;;
+     Ret (map (fun i => [sc; a; branch; i]) l)
+   end).
+Definition extend_addresses (sc a branch last : Z) : prog (list key) :=
+  ex <- scope_exists sc ;;
+  (if negb ex then Fail eScopeNotFound else
+   if branch =? 1
+   then Call "waddrmgr:(*ScopedKeyManager).ExtendInternalAddresses>(*ScopedKeyManager).extendAddresses"
+             (extend_addresses_inner sc a branch last) []
+   else Call "waddrmgr:(*ScopedKeyManager).ExtendExternalAddresses>(*ScopedKeyManager).extendAddresses"
+             (extend_addresses_inner sc a branch last) []).
+
+(** Manager.MarkUsed -> ScopedKeyManager.MarkUsed -> markAddressUsed *)
+Definition mark_used (path : key) : prog unit :=
+  let sc := hd 0 path in
+  ex <- get (sb sc oAddr) path ;;
+  (match ex with
+   | None => Fail eAddressNotFound
+   | Some _ =>
+     call "waddrmgr:(*Manager).MarkUsed>(*ScopedKeyManager).MarkUsed"
+          (call "waddrmgr:(*ScopedKeyManager).MarkUsed>markAddressUsed" (mark_address_used path))
+   end).
+
+(** importPublicKey: duplicate check, putImportedAddress, start block when
+    the stamp is older *)
+Definition start_moved (b : bool) : list key := if b then [[1]] else [].
+Definition import_public_key (sc : Z) (path : key) (h secret : Z) : prog (list key) :=
+  ex <- get (sb sc oAddr) path ;;
+  (match ex with
+   | Some _ => Fail eDuplicateAddress
+   | None =>
+     start <- get gSync kStartBlock ;;
+     call "waddrmgr:(*ScopedKeyManager).importPublicKey>putImportedAddress" (put_imported_address sc path secret) ;;;
+     (if h <? hd 0 (default [] start)
+      then call "waddrmgr:(*ScopedKeyManager).importPublicKey>putStartBlock" (put_start_block h)
+      else Ret tt) ;;;
+     Ret (start_moved (h <? hd 0 (default [] start)))
+   end).
+(** importScriptAddress *)
+Definition import_script_address (m : mem) (sc : Z) (path : key) (h : Z) (secret witness : bool) : prog (list key) :=
+  if secret && m_locked m then Fail eLocked else
+  if secret && m_watch m then Fail eWatchingOnly else
+  ex <- get (sb sc oAddr) path ;;
+  (match ex with
+   | Some _ => Fail eDuplicateAddress
+   | None =>
+     start <- get gSync kStartBlock ;;
+     (if witness
+      then call "waddrmgr:(*ScopedKeyManager).importScriptAddress>putWitnessScriptAddress"
+                (put_witness_script_address sc path (b2z secret))
+      else call "waddrmgr:(*ScopedKeyManager).importScriptAddress>putScriptAddress"
+                (put_script_address sc path (b2z secret))) ;;;
+     (if h <? hd 0 (default [] start)
+      then call "waddrmgr:(*ScopedKeyManager).importScriptAddress>putStartBlock" (put_start_block h)
+      else Ret tt) ;;;
+     Ret (start_moved (h <? hd 0 (default [] start)))
+   end).
+(** ImportPrivateKey (kind 0), ImportScript (1), ImportPublicKey (2),
+    ImportWitnessScript (3), ImportTaprootScript (4) *)
+Definition import_address (m : mem) (sc kind k h : Z) (secret : bool) : prog (list key) :=
+  let path := [sc; -1; kind; k] in
+  ex <- scope_exists sc ;;
+  (if negb ex then Fail eScopeNotFound else
+   if kind =? 0 then
+     (if m_locked m && negb (m_watch m) then Fail eLocked else
+      Call "waddrmgr:(*ScopedKeyManager).ImportPrivateKey>(*ScopedKeyManager).importPublicKey"
+           (import_public_key sc path h (b2z (negb (m_watch m)))) [])
+   else if kind =? 2 then
+     Call "waddrmgr:(*ScopedKeyManager).ImportPublicKey>(*ScopedKeyManager).importPublicKey"
+          (import_public_key sc path h 0) []
+   else if kind =? 1 then
+     Call "waddrmgr:(*ScopedKeyManager).ImportScript>(*ScopedKeyManager).importScriptAddress"
+          (import_script_address m sc path h true false) []
+   else if kind =? 3 then
+     Call "waddrmgr:(*ScopedKeyManager).ImportWitnessScript>(*ScopedKeyManager).importScriptAddress"
+          (import_script_address m sc path h secret true) []
    else
-     put gMain kCryptoPub [new] ;;;
-     put gMain kMasterPub [new]).
+     Call "waddrmgr:(*ScopedKeyManager).ImportTaprootScript>(*ScopedKeyManager).importScriptAddress"
+          (import_script_address m sc path h secret true) []).
+
+(** SetSyncedTo / SetBirthdayBlock / SetBirthday *)
+Definition set_synced_to (h hash : Z) : prog unit :=
+  call "waddrmgr:(*Manager).SetSyncedTo>PutSyncedTo" (put_synced_to h hash).
+Definition set_birthday_block (h hash : Z) (verified : bool) : prog unit :=
+  call "waddrmgr:(*Manager).SetBirthdayBlock>PutBirthdayBlock" (put_birthday_block h hash) ;;;
+  call "waddrmgr:(*Manager).SetBirthdayBlock>putBirthdayBlockVerification" (put_birthday_block_verification verified).
+Definition set_birthday (t : Z) : prog unit :=
+  call "waddrmgr:(*Manager).SetBirthday>putBirthday" (put_birthday t).
+
+(** ChangePassphrase (the old passphrase is checked against the key
+    parameters in memory) *)
+Definition change_passphrase (m : mem) (private : bool) (old new : Z) : prog unit :=
+  if private && m_watch m then Fail eWatchingOnly else
+  cur <- get gMain (if private then kMasterPriv else kMasterPub) ;;
+  let cur_id := match (if private then m_priv m else m_pub m) with
+                | Some x => x
+                | None => hd 0 (default [] cur)
+                end in
+  (if negb (cur_id =? old) then Fail eWrongPassphrase else
+   if private then
+     call "waddrmgr:(*Manager).ChangePassphrase>putCryptoKeys" (put_crypto_keys None (Some new) (Some new)) ;;;
+     call "waddrmgr:(*Manager).ChangePassphrase>putMasterKeyParams" (put_master_key_params None (Some new))
+   else
+     call "waddrmgr:(*Manager).ChangePassphrase>putCryptoKeys" (put_crypto_keys (Some new) None None) ;;;
+     call "waddrmgr:(*Manager).ChangePassphrase>putMasterKeyParams" (put_master_key_params (Some new) None)).
+
+(** ConvertToWatchingOnly *)
+Definition convert_to_watching_only (m : mem) : prog unit :=
+  if m_watch m then Ret tt else
+  call "waddrmgr:(*Manager).ConvertToWatchingOnly>deletePrivateKeys" delete_private_keys ;;;
+  call "waddrmgr:(*Manager).ConvertToWatchingOnly>putWatchingOnly" (put_watching_only true).
+
+(** waddrmgr.Create with the default scopes, private passphrase id [priv],
+    public passphrase id [pub]; [watch]: without root key *)
+Definition mgr_fresh : kv := {[ gNS := ∅ ]}.
+Definition create_manager (watch : bool) (priv pub : Z) : prog unit :=
+  ex <- has_bucket gMain ;;
+  (if ex then Fail eMgrAlreadyExists else
+   call "waddrmgr:Create>createManagerNS" (create_manager_ns (if watch then [] else default_scopes)) ;;;
+   (if watch then Ret tt else
+    for_each default_scopes (fun sc =>
+      call "waddrmgr:Create>createManagerKeyScope" (create_manager_key_scope sc)) ;;;
+    call "waddrmgr:Create>putMasterHDKeys" put_master_hd_keys) ;;;
+   call "waddrmgr:Create>putMasterKeyParams"
+        (put_master_key_params (Some pub) (if watch then None else Some priv)) ;;;
+   call "waddrmgr:Create>putCryptoKeys"
+        (put_crypto_keys (Some pub) (if watch then None else Some priv) (if watch then None else Some priv)) ;;;
+   call "waddrmgr:Create>putWatchingOnly" (put_watching_only watch) ;;;
+   call "waddrmgr:Create>PutSyncedTo" (put_synced_to 0 0) ;;;
+   call "waddrmgr:Create>putStartBlock" (put_start_block 0) ;;;
+   call "waddrmgr:Create>putBirthday" (put_birthday 0)).
 
 (** ** Operations (one or several per database transaction) *)
 Inductive mgr_op :=
 | MNewScope (sc : Z)
 | MNewAccount (sc name : Z)
+| MNewAccountWO (sc name : Z)
+| MNewRawAccountWO (sc a : Z)
 | MRename (sc a name : Z)
 | MNext (sc a branch : Z) (n : nat)
 | MExtend (sc a branch last : Z)
 | MMarkUsed (path : key)
-| MImport (sc kind k h : Z)
+| MImport (sc kind k h : Z) (secret : bool)
 | MSetSyncedTo (h hash : Z)
 | MSetBirthdayBlock (h hash : Z) (verified : bool)
 | MSetBirthday (t : Z)
-| MChangePassphrase (private : bool) (old new : Z).
+| MChangePassphrase (private : bool) (old new : Z)
+| MConvertWO
+| MCreate (watch : bool).
 
-Definition mgr_prog (o : mgr_op) : prog unit :=
-  match o with
-  | MNewScope sc => new_scope sc
-  | MNewAccount sc name => new_account sc name ;;; Ret tt
-  | MRename sc a name => rename_account sc a name
+(** the disk part (it reads the lock / watch-only flags and the passphrase
+    parameters from memory, everything else from the store); the result is
+    what the memory effect needs to know about it *)
+Definition mgr_disk (o : mgr_op) (m : mem) : prog (list key) :=
+  Call "" (match o with
+  | MNewScope sc => new_scope m sc ;;; Ret []
+  | MNewAccount sc name => new_account m sc name ;;; Ret []
+  | MNewAccountWO sc name => new_account_wo sc name ;;; Ret []
+  | MNewRawAccountWO sc a => new_raw_account_wo sc a ;;; Ret []
+  | MRename sc a name => rename_account sc a name ;;; Ret []
   | MNext sc a branch n => next_addresses sc a branch n
   | MExtend sc a branch last => extend_addresses sc a branch last
-  | MMarkUsed path => mark_used path
-  | MImport sc kind k h => import_address sc kind k h
-  | MSetSyncedTo h hash => set_synced_to h hash
-  | MSetBirthdayBlock h hash v => set_birthday_block h hash v
-  | MSetBirthday t => set_birthday t
-  | MChangePassphrase p old new => change_passphrase p old new
+  | MMarkUsed path => mark_used path ;;; Ret []
+  | MImport sc kind k h secret => import_address m sc kind k h secret
+  | MSetSyncedTo h hash => set_synced_to h hash ;;; Ret []
+  | MSetBirthdayBlock h hash v => set_birthday_block h hash v ;;; Ret []
+  | MSetBirthday t => set_birthday t ;;; Ret []
+  | MChangePassphrase p old new => change_passphrase m p old new ;;; Ret []
+  | MConvertWO => convert_to_watching_only m ;;; Ret []
+  | MCreate w => create_manager w 0 0 ;;; Ret []
+  end) [].
+
+(** field updates *)
+Definition with_flags (locked watch keys : bool) (m : mem) : mem :=
+  {| m_locked := locked; m_watch := watch; m_keys := keys; m_synced := m_synced m; m_start := m_start m;
+     m_birthday := m_birthday m; m_scopes := m_scopes m; m_names := m_names m; m_next := m_next m;
+     m_addrs := m_addrs m; m_priv := m_priv m; m_pub := m_pub m |}.
+Definition with_sync (synced : option (Z * Z)) (start birthday : option Z) (m : mem) : mem :=
+  {| m_locked := m_locked m; m_watch := m_watch m; m_keys := m_keys m; m_synced := synced; m_start := start;
+     m_birthday := birthday; m_scopes := m_scopes m; m_names := m_names m; m_next := m_next m;
+     m_addrs := m_addrs m; m_priv := m_priv m; m_pub := m_pub m |}.
+Definition with_caches (scopes : list Z) (names : list (Z * Z * Z)) (next : list (Z * Z * Z * Z))
+  (addrs : list key) (m : mem) : mem :=
+  {| m_locked := m_locked m; m_watch := m_watch m; m_keys := m_keys m; m_synced := m_synced m; m_start := m_start m;
+     m_birthday := m_birthday m; m_scopes := scopes; m_names := names; m_next := next;
+     m_addrs := addrs; m_priv := m_priv m; m_pub := m_pub m |}.
+Definition with_pass (priv pub : option Z) (m : mem) : mem :=
+  {| m_locked := m_locked m; m_watch := m_watch m; m_keys := m_keys m; m_synced := m_synced m; m_start := m_start m;
+     m_birthday := m_birthday m; m_scopes := m_scopes m; m_names := m_names m; m_next := m_next m;
+     m_addrs := m_addrs m; m_priv := priv; m_pub := pub |}.
+
+Definition key_eqb (a b : key) : bool := if list_eq_dec Z.eq_dec a b then true else false.
+
+(** the memory effect of a call whose disk part answered [r] *)
+Definition mgr_mem (o : mgr_op) (r : list key) (m : mem) : mem :=
+  match o with
+  | MNewScope sc => with_caches (m_scopes m ++ [sc]) (m_names m) (m_next m) (m_addrs m) m
+  | MRename sc a name => with_caches (m_scopes m) (m_names m ++ [(sc, a, name)]) (m_next m) (m_addrs m) m
+  | MNext sc a branch _ | MExtend sc a branch _ =>
+    (* next index and cache entries of the addresses written; nothing when none was *)
+    match r with
+    | [] => m
+    | _ => with_caches (m_scopes m) (m_names m)
+                       (m_next m ++ [(sc, a, branch, 1 + nth 3 (last r []) 0)]) (m_addrs m ++ r) m
+    end
+  | MMarkUsed path =>
+    with_caches (m_scopes m) (m_names m) (m_next m) (filter (fun p => negb (key_eqb p path)) (m_addrs m)) m
+  | MImport sc kind k h _ =>
+    with_sync (m_synced m) (match r with [] => m_start m | _ => Some h end) (m_birthday m)
+              (with_caches (m_scopes m) (m_names m) (m_next m) (m_addrs m ++ [[sc; -1; kind; k]]) m)
+  | MSetSyncedTo h hash => with_sync (Some (h, hash)) (m_start m) (m_birthday m) m
+  | MSetBirthday t => with_sync (m_synced m) (m_start m) (Some t) m
+  | MChangePassphrase private _ new =>
+    if private then with_pass (Some new) (m_pub m) m else with_pass (m_priv m) (Some new) m
+  | MConvertWO => if m_watch m then m else with_flags true true false m
+  | MNewAccount _ _ | MNewAccountWO _ _ | MNewRawAccountWO _ _ | MSetBirthdayBlock _ _ _ | MCreate _ => m
   end.
 
-(** several manager calls inside ONE walletdb.Update *)
-Definition mgr_tx (ops : list mgr_op) : prog unit := for_each ops mgr_prog.
-
-(** waddrmgr.Create with the default scopes [scs], private passphrase [priv],
-    public passphrase [pub] - only what the operations above read *)
-Definition default_scope (sc : Z) (s : kv) : kv :=
-  <[sb sc oMeta := {[ [0] := [0] ]}]>
-  (<[sb sc oIDIdx := {[ [0] := [name_default]; [-1] := [name_imported] ]}]>
-  (<[sb sc oNameIdx := {[ [name_default] := [0]; [name_imported] := [-1] ]}]>
-  (<[sb sc oAcct := {[ [0] := [0; 0; name_default]; [-1] := [0; 0; name_imported] ]}]>
-  (fold_right (fun off s => <[sb sc off := ∅]> s) s
-     [oScope; oAddr; oUsed; oAddrAcctIdx])))).
-
-Definition mgr_init (scs : list Z) (priv pub : Z) : kv :=
-  <[gMain := {[ kMasterPriv := [priv]; kMasterPub := [pub] ]}]>
-  (<[gSync := {[ [0] := [0]; kSyncedTo := [0; 0]; kStartBlock := [0] ]}]>
-  (<[gSchemas := ∅]>
-  (fold_right default_scope ∅ scs))).
-
-Definition mgr_step (s : kv) (ops : list mgr_op) : kv := snd (update (mgr_tx ops) s None).
-
-(** ** The Go code as written: putAddrAccountIndex (db.go) answers nil when
-    its first Put fails.  [swallow] is NOT a construct of the language; it is
-    defined on the monad to exhibit what a dropped error does. *)
-Definition swallow_and_return (m : M unit) (rest : M unit) : M unit := fun s n f =>
-  match m s n f with
-  | (Ok _, s1, n1) => rest s1 n1 f
-  | (Err _, s1, n1) => (Ok tt, s1, n1)      (* `if err != nil { return nil }` *)
+(** when the Go code applies the effect *)
+Definition mgr_shape (o : mgr_op) : shape :=
+  match o with
+  | MNext _ _ _ _ => AtCommit
+  | MSetBirthday _ => BeforeOwnWrites
+  | _ => AfterOwnWrites
   end.
 
-Definition put_address_as_coded (sc a : Z) (path : key) : M unit :=
-  m_bind (run (put (sb sc oAddr) path [a])) (fun _ =>
-  swallow_and_return
-    (run (put (sb sc oAddrAcctIdx) path [a]))
-    (m_bind (run (create_bucket_if_not_exists (acct_sub sc a))) (fun _ =>
-     run (put (acct_sub sc a) path [])))).
+(** the exported Go function an operation enters through, as
+    Generated/ErrFlow.v names it in [mem_shapes] *)
+Definition mgr_api (o : mgr_op) : string :=
+  match o with
+  | MNewScope _ => "waddrmgr:(*Manager).NewScopedKeyManager"
+  | MNewAccount _ _ => "waddrmgr:(*ScopedKeyManager).NewAccount"
+  | MNewAccountWO _ _ => "waddrmgr:(*ScopedKeyManager).NewAccountWatchingOnly"
+  | MNewRawAccountWO _ _ => "waddrmgr:(*ScopedKeyManager).NewRawAccountWatchingOnly"
+  | MRename _ _ _ => "waddrmgr:(*ScopedKeyManager).RenameAccount"
+  | MNext _ _ br _ => if br =? 1 then "waddrmgr:(*ScopedKeyManager).NextInternalAddresses"
+                      else "waddrmgr:(*ScopedKeyManager).NextExternalAddresses"
+  | MExtend _ _ br _ => if br =? 1 then "waddrmgr:(*ScopedKeyManager).ExtendInternalAddresses"
+                        else "waddrmgr:(*ScopedKeyManager).ExtendExternalAddresses"
+  | MMarkUsed _ => "waddrmgr:(*Manager).MarkUsed"
+  | MImport _ kind _ _ _ =>
+    if kind =? 0 then "waddrmgr:(*ScopedKeyManager).ImportPrivateKey"
+    else if kind =? 1 then "waddrmgr:(*ScopedKeyManager).ImportScript"
+    else if kind =? 2 then "waddrmgr:(*ScopedKeyManager).ImportPublicKey"
+    else if kind =? 3 then "waddrmgr:(*ScopedKeyManager).ImportWitnessScript"
+    else "waddrmgr:(*ScopedKeyManager).ImportTaprootScript"
+  | MSetSyncedTo _ _ => "waddrmgr:(*Manager).SetSyncedTo"
+  | MSetBirthdayBlock _ _ _ => "waddrmgr:(*Manager).SetBirthdayBlock"
+  | MSetBirthday _ => "waddrmgr:(*Manager).SetBirthday"
+  | MChangePassphrase _ _ _ => "waddrmgr:(*Manager).ChangePassphrase"
+  | MConvertWO => "waddrmgr:(*Manager).ConvertToWatchingOnly"
+  | MCreate _ => "waddrmgr:Create"
+  end.
+
+(** the source's shape codes (0 none, 1 after, 2 at_commit, 3 before; anything
+    else: not determined) that justify the model's shape *)
+Definition shape_admits (sh : shape) (code : N) : bool :=
+  match sh with
+  | AfterOwnWrites => N.leb code 2
+  | AtCommit => N.eqb code 0 || N.eqb code 2
+  | BeforeOwnWrites => N.leb code 3
+  end.
+
+Definition mgr_step_of (o : mgr_op) : step mem :=
+  {| st_shape := mgr_shape o; st_disk := mgr_disk o; st_mem := mgr_mem o |}.
+
+(** several manager calls inside ONE walletdb.Update: the disk side as one
+    program, and the run with the memory made explicit *)
+Definition mgr_tx (ops : list mgr_op) (m : mem) : prog unit := steps_prog (map mgr_step_of ops) m.
+Definition mgr_update (T : table) (ops : list mgr_op) (m : mem) (s : kv) (f : option nat)
+  : result unit * mem * kv * nat := update_steps T (map mgr_step_of ops) m s f.
+
+(** the state after waddrmgr.Create with private passphrase 0, public
+    passphrase 0 *)
+Definition mgr_init : kv :=
+  snd (update all_propagate (create_manager false 0 0) mgr_fresh None).
+
+(** the committed history: each transaction runs on a manager whose memory
+    agrees with the store *)
+Definition mgr_commit (T : table) (s : kv) (ops : list mgr_op) : kv :=
+  snd (update T (mgr_tx ops (mem0 false)) s None).
+
+(** ** The call sites each operation can reach *)
+Definition S_put_account_info : list site :=
+  ["waddrmgr:putAccountInfo>putAccountRow"; "waddrmgr:putAccountRow>db.Put";
+   "waddrmgr:putAccountInfo>putAccountIDIndex"; "waddrmgr:putAccountIDIndex>db.Put";
+   "waddrmgr:putAccountInfo>putAccountNameIndex"; "waddrmgr:putAccountNameIndex>db.Put"].
+Definition S_put_default_account_info : list site :=
+  "waddrmgr:putDefaultAccountInfo>putAccountInfo" :: S_put_account_info.
+Definition S_put_watchonly_account_info : list site :=
+  "waddrmgr:putWatchOnlyAccountInfo>putAccountInfo" :: S_put_account_info.
+Definition S_put_last_account : list site := ["waddrmgr:putLastAccount>db.Put"].
+Definition S_put_address : list site :=
+  ["waddrmgr:putAddress>db.Put"; "waddrmgr:putAddress>putAddrAccountIndex";
+   "waddrmgr:putAddrAccountIndex>db.Put"; "waddrmgr:putAddrAccountIndex>db.CreateBucketIfNotExists"].
+Definition S_put_chained_address : list site :=
+  ["waddrmgr:putChainedAddress>putAddress"; "waddrmgr:putChainedAddress>db.Put"] ++ S_put_address.
+Definition S_put_start_block : list site := ["waddrmgr:putStartBlock>db.Put"].
+Definition S_put_synced_to : list site :=
+  ["waddrmgr:PutSyncedTo>addBlockHash"; "waddrmgr:addBlockHash>db.Put";
+   "waddrmgr:PutSyncedTo>deleteBlockHash"; "waddrmgr:deleteBlockHash>db.Delete";
+   "waddrmgr:PutSyncedTo>updateSyncedTo"; "waddrmgr:updateSyncedTo>db.Put"].
+Definition S_create_scoped_manager_ns : list site := ["waddrmgr:createScopedManagerNS>db.CreateBucket"].
+Definition S_create_manager_key_scope : list site :=
+  ["waddrmgr:createManagerKeyScope>putCoinTypeKeys"; "waddrmgr:putCoinTypeKeys>db.Put";
+   "waddrmgr:createManagerKeyScope>putDefaultAccountInfo"; "waddrmgr:createManagerKeyScope>putLastAccount"]
+  ++ S_put_default_account_info ++ S_put_last_account.
+Definition S_import_public_key : list site :=
+  ["waddrmgr:(*ScopedKeyManager).importPublicKey>putImportedAddress"; "waddrmgr:putImportedAddress>putAddress";
+   "waddrmgr:(*ScopedKeyManager).importPublicKey>putStartBlock"] ++ S_put_address ++ S_put_start_block.
+Definition S_import_script_address : list site :=
+  ["waddrmgr:(*ScopedKeyManager).importScriptAddress>putWitnessScriptAddress"; "waddrmgr:putWitnessScriptAddress>putAddress";
+   "waddrmgr:(*ScopedKeyManager).importScriptAddress>putScriptAddress"; "waddrmgr:putScriptAddress>putAddress";
+   "waddrmgr:(*ScopedKeyManager).importScriptAddress>putStartBlock"] ++ S_put_address ++ S_put_start_block.
+Definition S_put_crypto : list site :=
+  ["waddrmgr:putCryptoKeys>db.Put"; "waddrmgr:putMasterKeyParams>db.Put"].
+
+Definition mgr_sites (o : mgr_op) : list site :=
+  "" ::
+  match o with
+  | MNewScope _ =>
+    ["waddrmgr:(*Manager).NewScopedKeyManager>createScopedManagerNS"; "waddrmgr:(*Manager).NewScopedKeyManager>db.Put";
+     "waddrmgr:(*Manager).NewScopedKeyManager>createManagerKeyScope"]
+    ++ S_create_scoped_manager_ns ++ S_create_manager_key_scope
+  | MNewAccount _ _ =>
+    ["waddrmgr:(*ScopedKeyManager).NewAccount>(*ScopedKeyManager).newAccount";
+     "waddrmgr:(*ScopedKeyManager).newAccount>putDefaultAccountInfo"; "waddrmgr:(*ScopedKeyManager).newAccount>putLastAccount"]
+    ++ S_put_default_account_info ++ S_put_last_account
+  | MNewAccountWO _ _ =>
+    ["waddrmgr:(*ScopedKeyManager).NewAccountWatchingOnly>(*ScopedKeyManager).newAccountWatchingOnly";
+     "waddrmgr:(*ScopedKeyManager).newAccountWatchingOnly>putWatchOnlyAccountInfo";
+     "waddrmgr:(*ScopedKeyManager).newAccountWatchingOnly>putLastAccount"]
+    ++ S_put_watchonly_account_info ++ S_put_last_account
+  | MNewRawAccountWO _ _ =>
+    ["waddrmgr:(*ScopedKeyManager).NewRawAccountWatchingOnly>(*ScopedKeyManager).newAccountWatchingOnly";
+     "waddrmgr:(*ScopedKeyManager).newAccountWatchingOnly>putWatchOnlyAccountInfo";
+     "waddrmgr:(*ScopedKeyManager).newAccountWatchingOnly>putLastAccount"]
+    ++ S_put_watchonly_account_info ++ S_put_last_account
+  | MRename _ _ _ =>
+    ["waddrmgr:(*ScopedKeyManager).RenameAccount>deleteAccountIDIndex"; "waddrmgr:deleteAccountIDIndex>db.Delete";
+     "waddrmgr:(*ScopedKeyManager).RenameAccount>deleteAccountNameIndex"; "waddrmgr:deleteAccountNameIndex>db.Delete";
+     "waddrmgr:(*ScopedKeyManager).RenameAccount>putDefaultAccountInfo";
+     "waddrmgr:(*ScopedKeyManager).RenameAccount>putWatchOnlyAccountInfo"]
+    ++ S_put_default_account_info ++ S_put_watchonly_account_info
+  | MNext _ _ br _ =>
+    [if br =? 1 then "waddrmgr:(*ScopedKeyManager).NextInternalAddresses>(*ScopedKeyManager).nextAddresses"
+     else "waddrmgr:(*ScopedKeyManager).NextExternalAddresses>(*ScopedKeyManager).nextAddresses";
+     "waddrmgr:(*ScopedKeyManager).nextAddresses>putChainedAddress"] ++ S_put_chained_address
+  | MExtend _ _ br _ =>
+    [if br =? 1 then "waddrmgr:(*ScopedKeyManager).ExtendInternalAddresses>(*ScopedKeyManager).extendAddresses"
+     else "waddrmgr:(*ScopedKeyManager).ExtendExternalAddresses>(*ScopedKeyManager).extendAddresses";
+     "waddrmgr:(*ScopedKeyManager).extendAddresses>putChainedAddress"] ++ S_put_chained_address
+  | MMarkUsed _ =>
+    ["waddrmgr:(*Manager).MarkUsed>(*ScopedKeyManager).MarkUsed"; "waddrmgr:(*ScopedKeyManager).MarkUsed>markAddressUsed";
+     "waddrmgr:markAddressUsed>db.Put"]
+  | MImport _ kind _ _ _ =>
+    if kind =? 0 then "waddrmgr:(*ScopedKeyManager).ImportPrivateKey>(*ScopedKeyManager).importPublicKey" :: S_import_public_key
+    else if kind =? 2 then "waddrmgr:(*ScopedKeyManager).ImportPublicKey>(*ScopedKeyManager).importPublicKey" :: S_import_public_key
+    else if kind =? 1 then "waddrmgr:(*ScopedKeyManager).ImportScript>(*ScopedKeyManager).importScriptAddress" :: S_import_script_address
+    else if kind =? 3 then "waddrmgr:(*ScopedKeyManager).ImportWitnessScript>(*ScopedKeyManager).importScriptAddress" :: S_import_script_address
+    else "waddrmgr:(*ScopedKeyManager).ImportTaprootScript>(*ScopedKeyManager).importScriptAddress" :: S_import_script_address
+  | MSetSyncedTo _ _ => "waddrmgr:(*Manager).SetSyncedTo>PutSyncedTo" :: S_put_synced_to
+  | MSetBirthdayBlock _ _ _ =>
+    ["waddrmgr:(*Manager).SetBirthdayBlock>PutBirthdayBlock"; "waddrmgr:PutBirthdayBlock>db.Put";
+     "waddrmgr:(*Manager).SetBirthdayBlock>putBirthdayBlockVerification"; "waddrmgr:putBirthdayBlockVerification>db.Put"]
+  | MSetBirthday _ => ["waddrmgr:(*Manager).SetBirthday>putBirthday"; "waddrmgr:putBirthday>db.Put"]
+  | MChangePassphrase _ _ _ =>
+    ["waddrmgr:(*Manager).ChangePassphrase>putCryptoKeys"; "waddrmgr:(*Manager).ChangePassphrase>putMasterKeyParams"]
+    ++ S_put_crypto
+  | MConvertWO =>
+    ["waddrmgr:(*Manager).ConvertToWatchingOnly>deletePrivateKeys"; "waddrmgr:(*Manager).ConvertToWatchingOnly>putWatchingOnly";
+     "waddrmgr:putWatchingOnly>db.Put"; "waddrmgr:deletePrivateKeys>db.Delete";
+     "waddrmgr:deletePrivateKeys>scopeBucket.ForEach(callback)"; "waddrmgr:deletePrivateKeys$1>db.Delete";
+     "waddrmgr:deletePrivateKeys$1>bucket.ForEach(callback)"; "waddrmgr:deletePrivateKeys$1$1>db.Put";
+     "waddrmgr:deletePrivateKeys$1$2>db.Put"]
+  | MCreate _ =>
+    ["waddrmgr:Create>createManagerNS"; "waddrmgr:createManagerNS>db.CreateBucket"; "waddrmgr:createManagerNS>db.Put";
+     "waddrmgr:createManagerNS>createScopedManagerNS"; "waddrmgr:createManagerNS>putLastAccount";
+     "waddrmgr:createManagerNS>putManagerVersion"; "waddrmgr:putManagerVersion>db.Put";
+     "waddrmgr:Create>createManagerKeyScope"; "waddrmgr:Create>putMasterHDKeys"; "waddrmgr:putMasterHDKeys>db.Put";
+     "waddrmgr:Create>putMasterKeyParams"; "waddrmgr:Create>putCryptoKeys"; "waddrmgr:Create>putWatchingOnly";
+     "waddrmgr:putWatchingOnly>db.Put"; "waddrmgr:Create>PutSyncedTo"; "waddrmgr:Create>putStartBlock";
+     "waddrmgr:Create>putBirthday"; "waddrmgr:putBirthday>db.Put"]
+    ++ S_create_scoped_manager_ns ++ S_put_last_account ++ S_create_manager_key_scope ++ S_put_crypto
+    ++ S_put_synced_to ++ S_put_start_block
+  end.
+
+Definition mgr_tx_sites (ops : list mgr_op) : list site := List.concat (map mgr_sites ops).
+
+(** one representative per kind of operation, with the name the harness uses *)
+Definition mgr_kinds : list (string * mgr_op) :=
+  [("NewScopedKeyManager", MNewScope 0); ("NewAccount", MNewAccount 0 0);
+   ("NewAccountWatchingOnly", MNewAccountWO 0 0); ("NewRawAccountWatchingOnly", MNewRawAccountWO 0 0);
+   ("RenameAccount", MRename 0 0 0);
+   ("NextExternalAddresses", MNext 0 0 0 1); ("NextInternalAddresses", MNext 0 0 1 1);
+   ("ExtendExternalAddresses", MExtend 0 0 0 0); ("ExtendInternalAddresses", MExtend 0 0 1 0);
+   ("MarkUsed", MMarkUsed []); ("ImportPrivateKey", MImport 0 0 0 0 true); ("ImportScript", MImport 0 1 0 0 true);
+   ("ImportPublicKey", MImport 0 2 0 0 false); ("ImportWitnessScript", MImport 0 3 0 0 true);
+   ("ImportTaprootScript", MImport 0 4 0 0 true); ("SetSyncedTo", MSetSyncedTo 0 0);
+   ("SetBirthdayBlock", MSetBirthdayBlock 0 0 true); ("SetBirthday", MSetBirthday 0);
+   ("ChangePassphrase", MChangePassphrase true 0 0); ("ConvertToWatchingOnly", MConvertWO);
+   ("waddrmgr.Create", MCreate false)].
